@@ -30,10 +30,13 @@ def legacy_method_src(prog, m):
                  "        fn reply(&self, ctx: sylvia::ctx::SudoCtx, reply: Reply) -> Result<Response, ContractError> {\n"
                  "            rec::reply_handler(\"%s\", \"decoy:sudo reply\", serde_json::json!({}), serde_json::json!({\"t\":\"-\"}), rec::reply_proj(&reply), vec![]);\n"
                  "            rec::resp(\"decoy\", 7, true)\n        }\n") % prog["id"]
+    # (stdret: the method returns the standard error type, which converts into the contract's declared one)
+    rty = "Result<Response, StdError>" if prog.get("stdret") else "Result<Response, ContractError>"
+    fin = ("rec::resp::<HandlerErr>(\"%s\", 7, %s).map_err(|e| StdError::generic_err(e.to_string()))" if prog.get("stdret") else "rec::resp(\"%s\", 7, %s)") % (n, ok)
     return decoy + ("        #[sv::msg(reply)]\n        #[allow(deprecated)]\n"
-            "        fn %s(&self, ctx: sylvia::types::ReplyCtx, reply: Reply) -> Result<Response, ContractError> {\n"
+            "        fn %s(&self, ctx: sylvia::types::ReplyCtx, reply: Reply) -> %s {\n"
             "            rec::reply_handler(\"%s\", \"%s\", rec::ctx_reply_legacy(&ctx), serde_json::json!({\"t\":\"-\"}), rec::reply_proj(&reply), vec![]);\n"
-            "            rec::touch(ctx.deps.storage, \"%s\");\n            rec::resp(\"%s\", 7, %s)\n        }\n") % (n, prog["id"], n, n, n, ok)
+            "            rec::touch(ctx.deps.storage, \"%s\");\n            %s\n        }\n") % (n, rty, prog["id"], n, n, fin)
 
 
 def method_src(prog, m):
@@ -78,11 +81,15 @@ def method_src(prog, m):
         attr, m["name"], ", ".join(params), body)
 
 
+LONG = {"u32": "4000000000u32", "String": '"s".repeat(100 * 1024)', "Nested": 'Nested { a: 3, b: "n".repeat(100 * 1024) }',
+        "Binary": "Binary::from(vec![7u8; 100 * 1024])"}
+
+
 def pay_arg_list(sig, val):
     out = []
     for i, (n, t) in enumerate(PAYLOAD[sig]):
         ty = {"u32": "u32", "String": "String", "Nested": "Nested", "Binary": "Binary"}[t]
-        out.append(TYPES[ty][1][(val + i) % 2][0])
+        out.append(LONG[ty] if val == 2 else TYPES[ty][1][(val + i) % 2][0])      # (value tuple 2: long values)
     return out
 
 
@@ -122,7 +129,7 @@ def program_src(prog):
     o.append("    fn build(h: &str, recv: &str, val: u32) -> Option<Result<(SubMsg<Empty>, bool, Vec<serde_json::Value>), String>> {\n"
              "        %s\n        match (h, val) {\n" % ("" if prog.get("family") == "legacy" else "use sv::SubMsgMethods;"))
     for h in prog["handlers"]:
-        for val in (0, 1):
+        for val in (0, 1, 2):
             lets = "".join("let a%d = %s; " % (i, a) for i, a in enumerate(pay_arg_list(h["payload"], val)))
             names = ", ".join("a%d.clone()" % i for i in range(len(PAYLOAD[h["payload"]])))
             encs = ", ".join("rec::enc(&a%d)" % i for i in range(len(PAYLOAD[h["payload"]])))
